@@ -366,6 +366,9 @@ def generate(ctx):
         if ctx.mine(k):
             cols = rng.sample(range(4), rng.choice([1, 2, 3]))     # keep these nucleotide columns: a d-regular graph
             yield "regular_large", dict(k=k, cols=sorted(cols))
+        if k == 8 and ctx.mine(k + 1):
+            # 65 536 vertices with vertex 0 (AAAAAAAA) live and carrying weight, every vertex with a missing arc
+            yield "regular_large", dict(k=k, cols=[0, 1, 2] if rng.random() < 0.5 else [0, 3])
     for _ in range(ctx.pick(8, 60)):        # G2: one accessor object of order 4/5 edited in place between capacity calls
         k = rng.choice([4, 4, 5])
         yield "edit_sequence", dict(k=k, seed=rng.getrandbits(30), steps=rng.randint(2, 5), repeats=rng.choice([1, 1, 2, 3]))
@@ -609,7 +612,7 @@ def floors(agg, tier):
     for name, need in (("precondition graph", 300), ("non-regular graph whose first two estimates coincide", 30),
                        ("bounds|arc-less", 2), ("bounds|any graph", 100), ("precondition graph|tails", 20),
                        ("precondition graph|generated", 20), ("precondition graph|sparse", 100), ("precondition graph|sparse-low", 300), ("precondition graph|deceptive", 200), ("bounds|estimates still cycling at the iteration cap", 20), ("accessor layout|F", 50),
-                       ("capacity re-requested after in-place edits of the same accessor", 50), ("regular|order 8", 1), ("regular|one arc-less vertex 0", 6),
+                       ("capacity re-requested after in-place edits of the same accessor", 50), ("regular|order 8", 2), ("regular|one arc-less vertex 0", 6),
                        ("non-regular graph with a uniform raw out-degree (arcs into arc-less vertices)", 15)):
         if c.get(name, 0) < need:
             out.append("%s observed %d < %d" % (name, c.get(name, 0), need))
